@@ -289,7 +289,12 @@ def step (s : Obj) : Op → Obj × Ret
       match s.omega with
       | some h => if h == g then getPcFF .fidelity s else (s, .valueError)
       | none => getPcFF .fidelity s
-    else if tl then getFF g .fidelity false false s else getCM g false s
+    else if tl then
+      -- traceless basis: fidelity filter function, then the control matrix (to subtract the
+      -- identity component; a cache hit unless the control matrix had been cleaned up)
+      let (s, r) := getFF g .fidelity false false s
+      ((getCM g false s).1, r)
+    else getCM g false s
   | .decayAmps g corr ci => decayAmps g corr ci s
   | .cumulant g so =>
     let (s, r) := decayAmps g false so s
